@@ -64,6 +64,8 @@ def _eff(ck, prog, E, api):
         if s0.scope == "object":
             sound_tables.setdefault((s0.cls, s0.table), []).append(r["verdict"])
     undecided_tables = set()
+    ctor_keys = {g.key for g in prog.all_funcs() if g.name == "__init__"}
+    reach_keys = _reachable(E, {f.key for f in api} | {k for k in ctor_keys if k in E.sum})
     for f in api:
         s = E.sum[f.key]
         construct = f.mod.relpath + ":" + f.qual
@@ -72,15 +74,17 @@ def _eff(ck, prog, E, api):
             parts = path.split(".")
             if parts[0] == "SeqObj" and len(parts) >= 2 and parts[1] in MEMO and len(parts) == 2:
                 continue
-            if parts[0] == "SeqObj" and len(parts) >= 2 and parts[1] not in WRITERS:
-                # a field the analysis has no writer table for: a new memo table.  Judged by MEMO-KEY, not by the writer table
-                v = sound_tables.get(("Sequence", parts[1]))
+            if parts[0] == "SeqObj" and len(parts) >= 2 and (parts[1] not in WRITERS or len(parts) > 2):
+                # a field the analysis has no writer table for (possibly of a helper object the sequence owns): a new memo table.
+                # Judged by MEMO-KEY, not by the writer table
+                v = sound_tables.get(("Sequence", parts[1])) if len(parts) == 2 else \
+                    [x for (c_, t_), vs_ in sound_tables.items() if t_ == parts[-1] for x in vs_]
                 if v and all(x == "ok" for x in v):
                     continue
                 if v and any(x == "violation" for x in v):
                     bad[path] = sorted(kinds) + ["memo key incomplete"]
                     continue
-                undecided_tables.add(parts[1])
+                undecided_tables.add(parts[-1])
                 continue
             bad[path] = sorted(kinds)
         sites = {p: [w for w in s.write_sites.get(p, [])][:3] for p in bad}
@@ -92,6 +96,32 @@ def _eff(ck, prog, E, api):
             # a module-level result table (`if key not in T: T[key] = ...`) is judged by MEMO-KEY: unobservable iff the key determines the value
             res = [r["verdict"] for r in memo_res if r["site"].scope in ("module", "closure") and r["site"].mod.rel == k[0] and r["site"].table == k[1]]
             if not res:
+                # an instance of a package class kept at module level (a shared helper object): writing its fields is observable only if some
+                # method uses a field before assigning it in the same call (state left by an earlier call); otherwise each call starts over
+                cls = prog.global_types.get(k)
+                if cls and cls in prog.class_mod:
+                    from lcsa import flow
+                    cm = prog.class_mod[cls]
+                    flds = set()
+                    for g in cm.funcs.values():
+                        if g.cls == cls and g.name != "__init__" and g.key in E.sum:
+                            flds |= {a.split(".")[0] for a in E.sum[g.key].self_writes}
+                    carried = {}
+                    for g in cm.funcs.values():
+                        if g.cls != cls or g.name == "__init__":
+                            continue
+                        for fld in sorted(flds):
+                            u = flow.used_before_assigned(g.body(), fld)
+                            if u is not None:
+                                carried["%s.%s" % (g.name, fld)] = g.loc(u)
+                    if not carried:
+                        del gm[k]
+                    else:
+                        gm[k] = list(gm[k]) + [{"state_left_by_an_earlier_call_is_used": carried}]
+                elif not _global_is_read(prog, k, reach_keys):
+                    # written but never read by anything a query or a constructor reaches (a counter, a log): unobservable through the API
+                    ck.info("%s writes module-level %s:%s, which nothing reachable from the API reads" % (f.qual, k[0], k[1]))
+                    del gm[k]
                 continue
             if all(x == "ok" for x in res):
                 del gm[k]
@@ -593,6 +623,34 @@ def _mdef(ck, prog, E, api):
     ck.ob("MDEF-idempotent-fill", g.mod.relpath + ":" + g.qual, only_fwd and len(sg.param_muts.get("grps", [])) <= 1,
           expected="the API default is only forwarded to linearCompositions", found=sg.param_muts.get("grps"), slot="api-forward", where=g.loc())
     # Sequence.__init__'s own chargePattern=[] default is stored, never mutated (see EFF-who-may-write no-inplace)
+
+
+def _global_is_read(prog, k, reach_keys):
+    """is the module-level object read (other than as the target of the very mutation) in a function of reach_keys?"""
+    rel, name = k
+    for g in prog.all_funcs():
+        if g.key not in reach_keys:
+            continue
+        writes = set()
+        for n in ast.walk(g.node):
+            if isinstance(n, ast.AugAssign):
+                writes |= {id(x) for x in ast.walk(n.target)}
+            elif isinstance(n, (ast.Assign, ast.Delete)):
+                for t in (n.targets):
+                    if isinstance(t, ast.Subscript):
+                        writes |= {id(x) for x in ast.walk(t.value)}
+            elif isinstance(n, ast.Call) and isinstance(n.func, ast.Attribute) and n.func.attr in ("append", "extend", "add", "update", "clear", "insert", "pop", "remove", "setdefault", "sort"):
+                writes |= {id(x) for x in ast.walk(n.func.value)}
+        for n in ast.walk(g.node):
+            if isinstance(n, ast.Name) and n.id == name and isinstance(n.ctx, ast.Load) and id(n) not in writes:
+                gl = prog.resolve_global(g.mod, n)
+                if gl and gl[0].rel == rel:
+                    return True
+            if isinstance(n, ast.Attribute) and n.attr == name and isinstance(n.ctx, ast.Load) and id(n) not in writes:
+                gl = prog.resolve_global(g.mod, n)
+                if gl and gl[0].rel == rel and gl[1] == name:
+                    return True
+    return False
 
 
 def _reachable(E, roots):
